@@ -628,7 +628,7 @@ KIND = {'C05': 'records-not-conserved', 'C06': 'retention', 'C07': 'size-or-spli
 
 META_NOTE = ('Trusted: Coq 8.16.1 kernel (vm_compute only for the closed sweep over the 146097 days of one Gregorian era, the '
              'shape equality and the examples), no axioms; tools/s2c/rotate.py (regex translation of the decision shapes of '
-             'rotatingfilesink.cpp/filesink.cpp/iodevicesink.cpp into SrcRotate.v); extraction (ExtrOcamlBasic only) and '
+             'rotatingfilesink.cpp/filesink.cpp/iodevicesink.cpp into SrcRotate.v, and of the sink choice of SimplePipeline::sendToFile into SrcRotateFront.v); extraction (ExtrOcamlBasic only) and '
              'ocaml/drv_rotate.ml; harness/h_rotate.cpp (virtual wall clock by interposing gettimeofday/clock_gettime/time, mtimes '
              're-stamped with utimensat); checks/rotate_util.py (ghost reconstruction from the directory listings, Python gzip as '
              'independent decoder).  Modelled, not verified: QFile/QDir/kernel file system (a directory is a list of named files), '
